@@ -145,17 +145,29 @@ func (o *Object) Write(rootGoitPath string) error {
 
 	dirPath := filepath.Join(rootGoitPath, "objects", o.Hash.String()[:2])
 	filePath := filepath.Join(dirPath, o.Hash.String()[2:])
+	// an object never changes, so an object that is already stored is not written again
+	if _, err := os.Stat(filePath); err == nil {
+		return nil
+	}
 	if f, err := os.Stat(dirPath); os.IsNotExist(err) || !f.IsDir() {
 		if err := os.Mkdir(dirPath, os.ModePerm); err != nil {
 			return fmt.Errorf("%w: %s", ErrIOHandling, dirPath)
 		}
 	}
-	f, err := os.Create(filePath)
+	// write to a temporary file and rename it, so that an interrupted write never leaves a partial object under its id
+	tmpPath := filePath + ".tmp"
+	f, err := os.Create(tmpPath)
 	if err != nil {
 		return fmt.Errorf("%w: %s", ErrIOHandling, filePath)
 	}
 	defer f.Close()
 	if _, err := f.Write(buf.Bytes()); err != nil {
+		return fmt.Errorf("%w: %s", ErrIOHandling, filePath)
+	}
+	if err := f.Close(); err != nil {
+		return fmt.Errorf("%w: %s", ErrIOHandling, filePath)
+	}
+	if err := os.Rename(tmpPath, filePath); err != nil {
 		return fmt.Errorf("%w: %s", ErrIOHandling, filePath)
 	}
 	return nil
